@@ -11,7 +11,14 @@ prop("C15", "exploration",
      "counter, body, tag), made either from an already delivered packet or from a packet taken off the wire before delivery; replay "
      "of a delivered packet (recent or up to 1200 back); a genuine packet held back on the wire while 449..514 later packets are "
      "delivered (so it lies below the 448-counter replay window) and then released from the third address; truncated copy (48..len-1 "
-     "bytes, or below 8 bytes). Side 0 examines the server's view of the client address (client roams), side 1 the client's view of "
+     "bytes, or below 8 bytes); REFLECTION (~ 1 step in 9, both sides): a session datagram that the endpoint under test ITSELF put on "
+     "the wire (any one from the wire log; the newest ones preferred, else up to 1200 back) is delivered back to that same endpoint "
+     "from a third address or (1 in 4) from the peer's current address - incl. an address the peer silently moved to -, after the "
+     "endpoint has first written 1..30 more messages (so that it has sent more than it has received and the reflected counter is ahead "
+     "of its receive window: label adv:reflection:counter-ahead-of-everything-the-endpoint-received, ~ 4 cases in 10) or after the peer "
+     "has first sent 1..12 more genuine packets (counter already seen / unseen inside the window); class 'reflection' in the address "
+     "and delivery clauses (redirected-by:reflection, accepted:reflection). The undelivered original of a flip may be an empty message "
+     "(1 in 6: every flip outside the header then lands in the tag). Side 0 examines the server's view of the client address (client roams), side 1 the client's view of "
      "the server address (server socket moves; the attacker writes to the client). Slow application: the endpoint under test "
      "gets a drawn receive queue length (package default, or 1, 2, 3, 5 packets: ServerConfig.MaxBufferedPacketsPerConnection / "
      "ClientConfig.MaxBufferedPackets) and every step may make its application stop or resume calling ReadMsg; genuine, roam and "
@@ -54,7 +61,8 @@ prop("C15", "exploration",
       "oracle; they are counted under the label endpoint-emitted-a-non-session-datagram"],
      [dict(name="roaming", pkg="transport", run="^TestVerifC15Roaming$", shards=dict(quick=12, thorough=16), thorough_scale=40)],
      text="Model-based search over address histories: generated interleavings of genuine packets from a moving peer with forged, "
-          "bit-flipped, replayed, stale and truncated datagrams from third addresses, run in lock-step against a live session; the "
+          "bit-flipped, replayed, stale, truncated and reflected (the endpoint's own packets sent back to it while their counter is "
+          "fresh in its receive window) datagrams from third addresses, run in lock-step against a live session; the "
           "destination of every datagram the endpoint emits is compared with a one-variable model (source of the last genuine, "
           "unmodified, fresh delivery). Both directions (server tracking the client, client tracking the server), both handshake "
           "modes, receive queues from the package default down to one packet with an application that stops and resumes reading "
